@@ -300,7 +300,8 @@ def arith_pool():
     mixed = Scalar.CreateWithQuantity(Quantity.CreateDerived(OrderedDict([("length", ["m", 1]), ("diameter", ["cm", 1])])), 1.0)
     mixed2 = Scalar.CreateWithQuantity(Quantity.CreateDerived(OrderedDict([("length", ["m", 1]), ("diameter", ["m", 1])])), 2.0)
     return {
-        "simple": [m, cm, km, s, mn, d, Scalar(20.0, "degC"), Scalar(300.0, "K"), Scalar(50.0, "degF")],
+        # (named units of another quantity type whose symbol reads like a derived unit: area 'm2', velocity 'm/s')
+        "simple": [m, cm, km, s, mn, d, Scalar(20.0, "degC"), Scalar(300.0, "K"), Scalar(50.0, "degF"), Scalar(3.0, "m2"), Scalar(2.0, "m/s")],
         "derived1": [m * m, cm * cm, cm * cm * cm, Scalar(1.0, "m") / (s * s) * Scalar(1.0, "s") * Scalar(1.0, "s") / m / m, km * km],
         "derived2": [m / s, cm / mn, km * s, cm * d, m * mn, s * cm, mn * km, Scalar(1.0, "s") / cm * Scalar(1.0, "m") * Scalar(1.0, "m"), mixed, mixed2],
         "empty": [Scalar.CreateEmptyScalar(3.0)],
